@@ -124,8 +124,9 @@ func WaitState(id string) (state string, stack string) {
 	return "", ""
 }
 
-// BlockedOnMutex reports whether goroutine id sits in sync.(*Mutex).Lock called (directly) from a frame
-// whose function name contains inFunc.
+// BlockedOnMutex reports whether goroutine id sits in sync.(*Mutex).Lock called from a frame whose
+// function name contains inFunc, either directly or through one helper of the same package (e.g. a
+// `lockX()` method that takes the mutex for its caller).
 func BlockedOnMutex(id string, inFunc string) bool {
 	st, stack := WaitState(id)
 	if st != "semacquire" && st != "sync.Mutex.Lock" {
@@ -134,13 +135,28 @@ func BlockedOnMutex(id string, inFunc string) bool {
 	lines := strings.Split(stack, "\n")
 	for i, l := range lines {
 		if strings.HasPrefix(l, "sync.(*Mutex).Lock(") {
-			// next function line (skipping the file:line line) is the caller
+			// function lines alternate with file:line lines; look at the caller and the caller's caller
 			if i+2 < len(lines) && strings.Contains(lines[i+2], inFunc) {
+				return true
+			}
+			if i+4 < len(lines) && strings.Contains(lines[i+4], inFunc) && samePkg(lines[i+2], lines[i+4]) {
 				return true
 			}
 		}
 	}
 	return false
+}
+
+func samePkg(a, b string) bool {
+	pkg := func(s string) string {
+		if i := strings.LastIndex(s, "/"); i >= 0 {
+			if j := strings.Index(s[i:], "."); j >= 0 {
+				return s[:i+j]
+			}
+		}
+		return s
+	}
+	return pkg(a) == pkg(b)
 }
 
 // Cluster is a set of PD servers forming one etcd cluster.
